@@ -30,7 +30,7 @@ type c04Input struct {
 	StubImpl   bool      `json:"stubImpl"`
 	WithResets bool      `json:"withResets"`
 	SkipEnsure bool      `json:"skipEnsure"`
-	StubLevel  string    `json:"stubLevel"`  // top | package | interface | unset (written nowhere: the default, false)
+	StubLevel  string    `json:"stubLevel"`  // top | package | interface | unset (written nowhere: the default, false) | parent (a recursive package above)
 	ResetLevel string    `json:"resetLevel"` // top | package | interface | unset
 	// an unrelated recursive package with a listed sub-package sets the opposite of every option
 	Decoy bool `json:"decoy,omitempty"`
@@ -52,10 +52,14 @@ func (c04) Generate(c *Ctx) []any {
 		r := c.Rng
 		in := c04Input{StubImpl: i%2 == 1, WithResets: (i/2)%2 == 1, SkipEnsure: r.Intn(3) == 0,
 			StubLevel: pick(r, []string{"top", "package", "interface"}), ResetLevel: pick(r, []string{"top", "package", "interface"})}
-		if !in.StubImpl && r.Intn(2) == 0 {
+		if i%5 == 3 {
+			// the package under test is a listed sub-package of a recursive package that sets the options
+			in.StubLevel, in.ResetLevel = "parent", "parent"
+		}
+		if !in.StubImpl && r.Intn(2) == 0 && in.StubLevel != "parent" {
 			in.StubLevel = "unset"
 		}
-		if !in.WithResets && r.Intn(2) == 0 {
+		if !in.WithResets && r.Intn(2) == 0 && in.ResetLevel != "parent" {
 			in.ResetLevel = "unset"
 		}
 		in.Decoy = i%3 != 2
@@ -130,7 +134,13 @@ func c04Config(in *c04Input) string {
 		}
 	}
 	td("", "top")
-	b.WriteString("packages:\n  example.com/m/store:\n")
+	b.WriteString("packages:\n")
+	if in.StubLevel == "parent" || in.ResetLevel == "parent" {
+		// the module's root package: recursive, nothing of its own is mocked
+		b.WriteString("  example.com/m:\n    config:\n      recursive: true\n")
+		td("      ", "parent")
+	}
+	b.WriteString("  example.com/m/store:\n")
 	if in.StubLevel == "package" || in.ResetLevel == "package" {
 		b.WriteString("    config:\n")
 		td("      ", "package")
